@@ -251,6 +251,7 @@ func (obj *Hmm) SetFinalStates(states []int) error {
     }
   }
   if len(states) > 0 {
+    finalStates, tf := obj.finalStates, obj.Tf
     obj.finalStates = make(map[int]bool)
     for _, i := range states {
       obj.finalStates[i] = true
@@ -259,7 +260,10 @@ func (obj *Hmm) SetFinalStates(states []int) error {
     obj.Tf = obj.Tr.CloneTransitionMatrix()
     t1 := NewFloat64(math.Inf(-1))
     t2 := NewFloat64(math.Inf(-1))
-    obj.normalizeTf(t1, t2)
+    if err := obj.normalizeTf(t1, t2); err != nil {
+      obj.finalStates, obj.Tf = finalStates, tf
+      return err
+    }
   }
   return nil
 }
